@@ -1,4 +1,3 @@
-\* C08: client lifecycles create -> update* -> recover -> update* -> deactivate
 CONSTANTS
   KIds = {1, 2, 3}
   KVers = {1, 2, 3}
@@ -7,13 +6,13 @@ CONSTANTS
   URIs = {1, 2}
   ONames = {1}
   MaxAdd = 2
-  MaxLen = 4
+  MaxLen = 100
   ListLens = {1}
   WithJP = FALSE
-  RepeatRecover = FALSE
-INIT CInit
-NEXT CNext
-VIEW View
-ACTION_CONSTRAINT DumpEdge
+  RepeatRecover = TRUE
+  TraceFile = "client_trace.ndjson"
+SPECIFICATION TraceSpec
+CONSTRAINT HighWater
+POSTCONDITION TraceAccepted
 INVARIANTS FreshCommitments DeactivatedShape UniqueDocIds
 CHECK_DEADLOCK FALSE
